@@ -515,19 +515,29 @@ func (w *World) restorePolarity(overlay map[string][]byte) (map[string][]byte, [
 		// every condition tested now; a condition that is tested in both polarities is left alone
 		var target *ast.IfStmt
 		tail := false
+		var loopTail []ast.Stmt // guard `if C { continue }` at the end of a loop body: the statements after it
 		var lists [][]ast.Stmt
+		loopBody := map[int]bool{}
+		loops := map[*ast.BlockStmt]bool{}
 		ast.Inspect(f.Decl.Body, func(x ast.Node) bool {
 			switch y := x.(type) {
 			case *ast.FuncLit:
 				return false
+			case *ast.ForStmt:
+				loops[y.Body] = true
+			case *ast.RangeStmt:
+				loops[y.Body] = true
 			case *ast.BlockStmt:
+				if loops[y] {
+					loopBody[len(lists)] = true
+				}
 				lists = append(lists, y.List)
 			case *ast.CaseClause:
 				lists = append(lists, y.Body)
 			}
 			return true
 		})
-		for _, list := range lists {
+		for li, list := range lists {
 			if target != nil {
 				break
 			}
@@ -544,6 +554,13 @@ func (w *World) restorePolarity(overlay map[string][]byte) (map[string][]byte, [
 					target, tail = ifs, false
 					break
 				}
+				// guard form in a loop body: `if C { continue }` + rest is `if !C { rest }`
+				if ifs.Else == nil && loopBody[li] && i+1 < len(list) && len(ifs.Body.List) == 1 {
+					if br, ok := ifs.Body.List[0].(*ast.BranchStmt); ok && br.Tok == token.CONTINUE && br.Label == nil {
+						target, loopTail = ifs, list[i+1:]
+						break
+					}
+				}
 				// guard form at the end of the function body
 				if ifs.Else == nil && terminates(ifs.Body.List) && i+1 < len(list) && terminates(list[i+1:]) && len(lists) > 0 && &list[0] == &f.Decl.Body.List[0] {
 					target, tail = ifs, true
@@ -555,7 +572,11 @@ func (w *World) restorePolarity(overlay map[string][]byte) (map[string][]byte, [
 			continue
 		}
 		neg := types.ExprString(negateExpr(target.Cond))
-		if !tail {
+		if loopTail != nil {
+			last := loopTail[len(loopTail)-1]
+			rest := text(target.End(), last.End())
+			edits[fname] = append(edits[fname], textEdit{tf.Offset(target.Pos()), tf.Offset(last.End()), "if " + neg + " {" + rest + "\n}"})
+		} else if !tail {
 			blk := target.Else.(*ast.BlockStmt)
 			txt := "if " + neg + " " + text(blk.Pos(), blk.End()) + " else " + text(target.Body.Pos(), target.Body.End())
 			edits[fname] = append(edits[fname], textEdit{tf.Offset(target.Pos()), tf.Offset(target.End()), txt})
